@@ -4,7 +4,7 @@
    (open-path counter, shorted mask, early returns); [spec] is the pointwise law on extended values. *)
 From Coq Require Import Reals ZArith Bool List.
 From Coquelicot Require Import Coquelicot.
-From PV Require Import Base.Outcome Circuit.Imp Circuit.Imp_facts Circuit.Imp_total Circuit.ImpC.
+From PV Require Import Base.Outcome Circuit.Imp Circuit.Imp_facts Circuit.Imp_total Circuit.Imp_uniform Circuit.ImpC.
 Import ListNotations.
 
 (* For every number type, every tree (any nesting, any width), every vector length and every assignment of
@@ -28,6 +28,18 @@ Theorem C01_single_frequency_total_correct :
   forall t, impl K k0 kadd kinv kis0 leafv 1 t = Ok [spec K k0 kadd kinv kis0 t (fun id => nth 0 (leafv id) Inf)].
 Proof. exact single_frequency_correct. Qed.
 Print Assumptions C01_single_frequency_total_correct.
+
+(* ... and evaluated as an ARRAY the implementation returns — with the law's value at every frequency — whenever every branch of every
+   parallel connection of the tree is, under the law, open at all of the evaluated frequencies or at none of them ([uniform]); the only
+   refusal of the array version is a branch that is open at some frequencies and not at others.  Total correctness on vectors of any
+   length under that hypothesis, for every tree. *)
+Theorem C01_array_total_correct_when_open_branches_are_uniform :
+  forall (K : Type) (k0 : K) (kadd : K -> K -> K) (kinv : K -> K) (kis0 : K -> bool) (leafv : nat -> list (ez K)) (n : nat),
+  (forall id, length (leafv id) = n) ->
+  forall t, uniform K k0 kadd kinv kis0 leafv n t = true ->
+  impl K k0 kadd kinv kis0 leafv n t = Ok (specv K k0 kadd kinv kis0 leafv n t).
+Proof. exact uniform_total_correct. Qed.
+Print Assumptions C01_array_total_correct_when_open_branches_are_uniform.
 
 (* evaluating as an array and one frequency at a time agree wherever both return *)
 Theorem C01_vector_eq_pointwise :
